@@ -30,6 +30,6 @@ pub use wasmtimer::{
 pub use wasm_bindgen_futures::spawn_local as spawn;
 
 #[cfg(all(not(target_arch = "wasm32"), feature = "verif-hooks"))]
-pub use crate::verif_hooks::spawn;
+pub use crate::verif_hooks::{sleep, spawn};
 #[cfg(all(not(target_arch = "wasm32"), feature = "verif-hooks"))]
-pub use tokio::time::{interval, sleep, timeout, Interval};
+pub use tokio::time::{interval, timeout, Interval};
